@@ -27,6 +27,7 @@
 import EG.Lemmas.ThickGeoMetric
 import EG.Lemmas.ThickGeoHole
 import EG.Lemmas.ThickGeoBandMetric
+import EG.Lemmas.ThickGeoMid
 import EG.Lemmas.ThickTotal
 namespace EG.C17.Stroke
 open EG
@@ -243,5 +244,59 @@ theorem thick_band_axis_parallel_or_diagonal (l : Line) (w : Nat) (hw2 : w ≤ 2
 
 example : (strokeDir ⟨⟨3, -2⟩, ⟨-4, 5⟩⟩).x.natAbs = (strokeDir ⟨⟨3, -2⟩, ⟨-4, 5⟩⟩).y.natAbs ∧
     (strokeDir ⟨⟨3, -2⟩, ⟨3, 9⟩⟩).x = 0 := by decide
+
+
+/-! ### "At least w - 1 pixels wide at its middle" as the extent of the middle slab -/
+
+/-- `p` lies in the middle slab of the oracle: its projection is within one pixel of the midpoint
+of the segment, `(2 dot(p) - L2)^2 <= 4 L2`. -/
+def InMiddle (l : Line) (p : Pt) : Prop := (2 * dot l p - L2 l) ^ 2 ≤ 4 * L2 l
+
+/-- The oracle's predicate `C17:thick-middle-width` for one stroke: the middle slab is not empty
+and, for `w >= 3`, its perpendicular extent is at least `w - 2` (the width counted in pixels is
+the extent plus one): `(max cross - min cross)^2 >= (w - 2)^2 L2`. NOT proved at this strength (see
+`thick_middle_width_partial`); carried by correspondence + oracle. -/
+def ThickMiddleWidth (l : Line) (w : Nat) : Prop :=
+  ∀ ps, Thick.thickPoints l w = some ps → ∃ p ∈ ps, ∃ q ∈ ps, InMiddle l p ∧ InMiddle l q ∧
+    (3 ≤ w → ((w : Int) - 2) ^ 2 * L2 l ≤ (cross l p - cross l q) ^ 2)
+
+/-- **The middle slab of a stroked line is not empty and its perpendicular extent is at least
+`w - 3`** (one pixel less than the oracle's `ThickMiddleWidth` demands), for every line of non-zero
+length and every width `1 <= w <= i32::MAX`: every parallel has a pixel in the middle slab, the
+pixels of the outermost left and right parallels are more than `D (N - 2)` apart in `cross`
+(`N` parallels, `D = max(|dx|,|dy|)`), and `D + d + 2 D N >= accumulator > 2 w L`. -/
+theorem thick_middle_width_partial (l : Line) (hnd : l.start ≠ l.stop) (w : Nat) (hw : 1 ≤ w)
+    (hw2 : w ≤ 2147483647) (ps : List Pt) (h : Thick.thickPoints l w = some ps) :
+    ∃ p ∈ ps, ∃ q ∈ ps, InMiddle l p ∧ InMiddle l q ∧
+      (3 ≤ w → ((w : Int) - 3) ^ 2 * L2 l ≤ (cross l p - cross l q) ^ 2) := by
+  obtain ⟨p, hp, q, hq, m1, m2, hext⟩ := Thick.thickPoints_mid_extent l hnd w hw hw2 ps h
+  refine ⟨p, hp, q, hq, ?_, ?_, ?_⟩
+  · unfold InMiddle
+    unfold Thick.MidP Thick.StrokeCtx.tmid at m1
+    rw [dot_eq, L2_eq]
+    have : ∀ t : Int, t ^ 2 = t * t := fun t => by ring
+    rw [this]; exact m1
+  · unfold InMiddle
+    unfold Thick.MidP Thick.StrokeCtx.tmid at m2
+    rw [dot_eq, L2_eq]
+    have : ∀ t : Int, t ^ 2 = t * t := fun t => by ring
+    rw [this]; exact m2
+  · intro hw3
+    have h1 := hext hw3
+    rw [← L2_eq] at h1
+    have hX : ((Thick.ctxOf l).ph p - (Thick.ctxOf l).ph q) * ((Thick.ctxOf l).ph p - (Thick.ctxOf l).ph q) =
+        4 * (cross l p - cross l q) ^ 2 := by
+      have e : (Thick.ctxOf l).ph p - (Thick.ctxOf l).ph q =
+          ((Thick.ctxOf l).ph p - (Thick.ctxOf l).ph l.start) -
+          ((Thick.ctxOf l).ph q - (Thick.ctxOf l).ph l.start) := by omega
+      rw [e]
+      rcases ph_cross_uniform l with hu | hu <;> rw [hu p, hu q] <;> ring
+    rw [hX] at h1
+    have e2 : (2 * (w : Int) - 6) * (2 * (w : Int) - 6) * L2 l = 4 * (((w : Int) - 3) ^ 2 * L2 l) := by
+      ring
+    omega
+
+example : (⟨2, 2⟩ : Pt) ≠ ⟨6, 4⟩ ∧ (1 : Nat) ≤ 5 ∧ (5 : Nat) ≤ 2147483647 ∧
+    InMiddle ⟨⟨2, 2⟩, ⟨6, 4⟩⟩ ⟨4, 3⟩ := by unfold InMiddle; decide
 
 end EG.C17.Stroke
